@@ -54,7 +54,10 @@ def run_fn(c) -> CaseResult:
     op = c["op"]
     res.labels += [f"op={op}", f"dtype={c['dtype']}", f"backend={c['backend']}"]
     bu = pb.build(c, c["seedA"])
-    ts = [t.clone().requires_grad_() for t in bu.ts]
+    frozen = c["frozen_role"] % len(bu.ts) if (c.get("frozen_role") is not None and len(bu.ts) >= 2) else None
+    if frozen is not None:
+        res.labels.append("one-operand-without-grad")
+    ts = [t.clone().requires_grad_(i != frozen) for i, t in enumerate(bu.ts)]
     try:
         y = bu.u(*ts)
     except Exception:  # noqa: BLE001  (unsupported combination in eager: C01's business)
@@ -68,16 +71,16 @@ def run_fn(c) -> CaseResult:
         # the gradient a partial reduction (y.sum(dim=k)) sends back: constant along one dimension, stride 0 there
         up = up.narrow(c["seedG"] % y.dim(), 0, 1).expand(y.shape)
         res.labels.append("upstream=partial-reduction")
-    g = torch.autograd.grad(y, ts, up, allow_unused=True)
+    g = pb._agrad(y, ts, up)
     tol = TOL[c["dtype"]]
     if op == "rms_norm":
         tol = max(tol, 2e-5)   # float32 denominator by design (see above)
     try:
         torch._dynamo.reset()
         cf = torch.compile(bu.u, backend=c["backend"], fullgraph=True)
-        tc = [t.clone().requires_grad_() for t in bu.ts]
+        tc = [t.clone().requires_grad_(i != frozen) for i, t in enumerate(bu.ts)]
         yc = cf(*tc)
-        gc = torch.autograd.grad(yc, tc, up, allow_unused=True)
+        gc = pb._agrad(yc, tc, up)
     except Exception as e:  # noqa: BLE001
         res.fail(exc_bucket(f"C20.compile.raises:{op}:{c['backend']}", e).replace("outside-library", "in-torch")[:300], f"{type(e).__name__}: {str(e)[:400]}")
         return res
